@@ -90,6 +90,7 @@ type Profile struct {
 	SplitHalves   bool // loads read the lower half of memory, stores write the upper half
 	SlowBranchPct int  // chance (in %) that a branch operand is produced by a load right before it
 	FreshLinePct  int  // chance (in %) that a memory access goes to a line not touched before
+	WidePoolPct   int  // chance (in %) of a wide register pool with destinations in rotation
 }
 
 // Builder constructs a program concolically: it knows the concrete
@@ -105,6 +106,8 @@ type Builder struct {
 	depth  int
 	Meta   map[string]int
 	noDest map[int]bool // registers that must not be written (reserved in the current scope)
+	rotate bool         // destinations are taken from the pool in rotation
+	next   int
 }
 
 // NewBuilder draws the pool, the initial registers and the memory image.
@@ -112,6 +115,13 @@ func NewBuilder(t *rapid.T, p Profile) (*Builder, *Case) {
 	b := &Builder{t: t, P: p, Meta: map[string]int{}, noDest: map[int]bool{}}
 	b.Prog.Labels = map[string]int{}
 	n := rapid.IntRange(p.PoolMin, p.PoolMax).Draw(t, "pool")
+	if p.WidePoolPct > 0 && rapid.IntRange(0, 99).Draw(t, "widepool") < p.WidePoolPct {
+		// many registers, destinations taken in rotation: few WAW/WAR pairs, so
+		// that the renaming variants are judged at parallelism >= 2 more often
+		n = rapid.IntRange(8, 14).Draw(t, "widepooln")
+		b.rotate = true
+		b.Meta["widepool"]++
+	}
 	off := rapid.IntRange(0, len(poolCandidates)-1).Draw(t, "pooloff")
 	for i := 0; i < n; i++ {
 		b.pool = append(b.pool, poolCandidates[(off+i)%len(poolCandidates)])
@@ -187,6 +197,15 @@ func (b *Builder) reg(label string) int {
 }
 
 func (b *Builder) dest(label string) int {
+	if b.rotate && rapid.IntRange(0, 9).Draw(b.t, label+"rot") != 0 {
+		for i := 0; i < len(b.pool); i++ {
+			r := b.pool[b.next%len(b.pool)]
+			b.next++
+			if !b.noDest[r] && r != 0 {
+				return r
+			}
+		}
+	}
 	for i := 0; i < 4; i++ {
 		r := b.reg(label)
 		if !b.noDest[r] {
